@@ -144,7 +144,7 @@ func setup(dir string, tmpl *cache.Cache, s scenario) {
 
 func scenarios(th bool) []scenario {
 	var out []scenario
-	sizes := []int{0, 1, 2, 40}
+	sizes := []int{0, 1, 2, 40, 4096}
 	big := 40000
 	if th {
 		big = 70000
@@ -199,6 +199,9 @@ func (f fault) String() string {
 	case "seek-fail":
 		return fmt.Sprintf("seek-fail@%d", f.K)
 	}
+	if strings.HasPrefix(f.Kind, "flip+") {
+		return fmt.Sprintf("src-flip@offset%d,pass%d+%s@%d", f.K, f.J, strings.TrimPrefix(f.Kind, "flip+"), f.K2)
+	}
 	if f.K2 >= 0 && f.Kind == "fail" {
 		return fmt.Sprintf("fail@%d+fail@%d", f.K, f.K2)
 	}
@@ -247,7 +250,7 @@ func (s *source) Read(p []byte) (int, error) {
 		return 0, io.EOF
 	}
 	n := copy(p, s.data[s.off:limit])
-	if s.f.Kind == "src-flip" && s.pass() == s.f.J {
+	if (s.f.Kind == "src-flip" || strings.HasPrefix(s.f.Kind, "flip+")) && s.pass() == s.f.J {
 		for i := 0; i < n; i++ {
 			if s.off+i == s.f.K {
 				p[i] ^= 0x20
@@ -279,7 +282,7 @@ func runPut(dir string, tmpl *cache.Cache, s scenario, f fault) (res runResult) 
 		k := n
 		n++
 		res.Ops = append(res.Ops, op.Kind)
-		failing := f.Kind == "fail" && (k == f.K || k == f.K2)
+		failing := f.Kind == "fail" && (k == f.K || k == f.K2) || f.Kind == "flip+fail" && k == f.K2
 		if op.Kind == "open" && op.Flag&(os.O_WRONLY|os.O_RDWR) != 0 && !failing {
 			defer func() { sawWriteOpen = true }()
 		}
@@ -287,6 +290,19 @@ func runPut(dir string, tmpl *cache.Cache, s scenario, f fault) (res runResult) 
 		case "crash":
 			if k == f.K {
 				return vos.Verdict{Crash: true}
+			}
+		case "flip+crash":
+			// the source changes between the passes and the process stops at operation K2
+			if k == f.K2 {
+				return vos.Verdict{Crash: true}
+			}
+		case "flip+fail":
+			// the source changes between the passes and operation K2 fails
+			if k == f.K2 {
+				if !sawWriteOpen {
+					res.StatFailed = true
+				}
+				return vos.Verdict{Fail: &os.PathError{Op: op.Kind, Path: op.Path, Err: syscall.EIO}}
 			}
 		case "kill":
 			if k == f.K {
@@ -551,7 +567,7 @@ func main() {
 	}
 	r.MaybeReplay()
 
-	var runs, crashes, fails, shorts, torn, srcs, kills, pairs int64
+	var runs, crashes, fails, shorts, torn, srcs, kills, pairs, flipPairs int64
 	boundaries := map[string]int{}
 	report := func(s scenario, f fault, v string, res runResult) {
 		if v != "" {
@@ -649,6 +665,23 @@ func main() {
 				}
 			}
 		}
+		// the source changes between the passes AND the process stops at, or fails,
+		// one of the file operations that follow (the clean-up after the mismatch
+		// was noticed is itself made of file operations)
+		if s.Size > 0 && s.Size <= 4096 {
+			for _, o := range []int{0, s.Size - 1} {
+				_, fr := w.one(s, fault{Kind: "src-flip", K: o, J: 2, K2: -1})
+				for k2 := 0; k2 <= len(fr.Ops); k2++ {
+					for _, kind := range []string{"flip+crash", "flip+fail"} {
+						f := fault{Kind: kind, K: o, J: 2, K2: k2}
+						v, res := w.one(s, f)
+						runs++
+						flipPairs++
+						report(s, f, v, res)
+					}
+				}
+			}
+		}
 		for sk := 1; sk <= 2; sk++ {
 			f := fault{Kind: "seek-fail", K: sk, K2: -1}
 			v, res := w.one(s, f)
@@ -663,12 +696,13 @@ func main() {
 	}
 	r.Set("evaluations", runs)
 	r.Set("distinct_nontrivial", runs-int64(len(boundaries)))
-	r.Set("rule", "one run per (scenario, fault): scenarios = start state x content size; faults = crash before each file operation of Put (and after the last), each operation failing, each write short at several lengths, the process dying inside each write after several lengths, pairs of failures (failing operation + a later clean-up operation), the source failing / ending early at every read offset of either pass or changing between passes, Seek failing, and a real SIGKILL of a child process at each boundary. non-trivial = runs with a fault (all distinct by construction)")
+	r.Set("rule", "one run per (scenario, fault): scenarios = start state x content size; faults = crash before each file operation of Put (and after the last), each operation failing, each write short at several lengths, the process dying inside each write after several lengths, pairs of failures (failing operation + a later clean-up operation), the source failing / ending early at every read offset of either pass or changing between passes (alone, and together with a stop at or a failure of each later file operation, for sizes up to 4096), Seek failing, and a real SIGKILL of a child process at each boundary. non-trivial = runs with a fault (all distinct by construction)")
 	r.Set("crash_points", crashes)
 	r.Set("failed_operations", fails)
 	r.Set("short_writes", shorts)
 	r.Set("process_death_inside_a_write", torn)
 	r.Set("failure_pairs", pairs)
+	r.Set("changed_source_plus_stop_or_failure", flipPairs)
 	r.Set("source_faults", srcs)
 	r.Set("real_sigkill_runs", kills)
 	r.Set("scenarios", len(boundaries))
